@@ -33,6 +33,8 @@ var c18Progs = []c18Prog{
 	{"replace", "replace all (at least 1 digit) = n with '<' n '>'", true, false},
 	{"two-statements", "find all 'Hello'\nfind all at least 1 digit", false, false},
 	{"failing", "find all 'unterminated", false, true},
+	// escapes in literals travel unchanged through -com and -src: backslash-backslash-n is a backslash and an n
+	{"escapes", "find all 'Ada\\\\n\\t' or \"100\\x25\" or 'caf\\xe9'", false, false},
 }
 
 var c18FileSets = []struct {
@@ -114,7 +116,7 @@ func stripDir(v any, dir string) any {
 func C18(r *drv.Run) {
 	r.BuildWorker()
 	r.BuildCLI()
-	r.Rule = "the built vore binary in scratch directories over the cross product {-com, -src} x 6 file sets (one file, several by glob, none matching, a glob with the star in the middle of a name, a glob into a sub-directory, a wildcard directory segment that selects a symbolic link to a directory) x {none, -json, -formatted-json} x {-json-file} x {-formatted-json-file} x {default, NEW, NOTHING, OVERWRITE} x {-no-output} x {find, replace, two statements, failing program} (thorough: all 4 608; quick: a seed-selected 480) plus 14 invalid invocations and 19 unknown mode names (other letter cases, near misses, the engine's internal fourth mode CONFIRM, numbers, lists) each with a find and a replace program; a fifth of the -src invocations with the program arriving through a named pipe, a third of the invocations with longer JSON output files left over from an earlier run, a quarter with the -files pattern made absolute, two thirds with their flag groups in a seed-chosen order and spelling (-flag value, --flag value, -flag=value). Oracle: exit status; stdout under -json/-formatted-json is exactly one JSON document equal (after decoding) to the library's result for the same program and files, computed by a worker through RunFiles; the named JSON files likewise; replace mode honoured with NEW as default and outputs equal to the splice (directory snapshot before/after); invalid invocations, unknown modes and compile errors exit non-zero with a message and an empty snapshot diff. Non-trivial = invocation with >= 1 match whose JSON/stdout/file effects were all verified; distinct by configuration."
+	r.Rule = "the built vore binary in scratch directories over the cross product {-com, -src} x 6 file sets (one file, several by glob, none matching, a glob with the star in the middle of a name, a glob into a sub-directory, a wildcard directory segment that selects a symbolic link to a directory) x {none, -json, -formatted-json} x {-json-file} x {-formatted-json-file} x {default, NEW, NOTHING, OVERWRITE} x {-no-output} x {find, replace, two statements, failing program, literals with escapes} (thorough: all 5 760; quick: a seed-selected 600) plus 14 invalid invocations and 19 unknown mode names (other letter cases, near misses, the engine's internal fourth mode CONFIRM, numbers, lists) each with a find and a replace program; a fifth of the -src invocations with the program arriving through a named pipe, a third of the invocations with longer JSON output files left over from an earlier run, a quarter with the -files pattern made absolute, two thirds with their flag groups in a seed-chosen order and spelling (-flag value, --flag value, -flag=value). Oracle: exit status; stdout under -json/-formatted-json is exactly one JSON document equal (after decoding) to the library's result for the same program and files, computed by a worker through RunFiles; the named JSON files likewise; replace mode honoured with NEW as default and outputs equal to the splice (directory snapshot before/after); invalid invocations, unknown modes and compile errors exit non-zero with a message and an empty snapshot diff. Non-trivial = invocation with >= 1 match whose JSON/stdout/file effects were all verified; distinct by configuration."
 	r.Assumptions = []string{
 		"with -no-output only exit status and file effects of the replace mode are demanded (the documentation does not say whether JSON files are still written)",
 		"zero matches / no files: exit 0 and no JSON demanded (the property's 'when there is at least one match')",
@@ -191,7 +193,7 @@ func C18(r *drv.Run) {
 			j := rng.Intn(i + 1)
 			cfgs[i], cfgs[j] = cfgs[j], cfgs[i]
 		}
-		cfgs = cfgs[:480]
+		cfgs = cfgs[:600]
 	} else {
 		r.Exhaustive = true
 	}
